@@ -181,6 +181,10 @@ Lemma fold_seg {X} (f : state -> X -> state) (l : list X) :
   (forall s x, seg (f s x) = seg s) -> forall s, seg (fold_left f l s) = seg s.
 Proof. intros Hf. induction l as [|x r IH]; intros s; cbn [fold_left]; [reflexivity|]. now rewrite IH, Hf. Qed.
 
+Lemma fold_succs {X} (f : state -> X -> state) (l : list X) :
+  (forall s x, succs (g (f s x)) = succs (g s)) -> forall s, succs (g (fold_left f l s)) = succs (g s).
+Proof. intros Hf. induction l as [|x r IH]; intros s; cbn [fold_left]; [reflexivity|]. now rewrite IH, Hf. Qed.
+
 Lemma rp_compute_frame_ft ks sg st t : ft (rp_compute_frame ks sg st t) = ft st.
 Proof.
   unfold rp_compute_frame. apply fold_ft. intros s l. destruct (has_node s l); [|reflexivity].
@@ -441,4 +445,1110 @@ Theorem registry_run2 ops : forall st,
 Proof.
   induction ops as [|o r IH]; intros st C W; cbn [fold_left]; [auto|].
   destruct (registry_step2 st o C W) as [C' W']. now apply IH.
+Qed.
+
+(* ================================================================== *)
+(* Part 4 : disabled features are frozen                               *)
+(* ================================================================== *)
+(* [frz k X s s']: the flags and registry are the same, and outside [X] (the nodes the action
+   itself adds or deletes) the node set is the same and the value of node key [k] is the same *)
+Lemma has_node_ids s s' n : node_ids s' = node_ids s -> has_node s' n = has_node s n.
+Proof.
+  intros E. destruct (has_node s n) eqn:H.
+  - apply is_node_haskey. unfold is_node. rewrite E. now apply is_node_haskey.
+  - destruct (has_node s' n) eqn:H'; [|reflexivity]. apply is_node_haskey in H'. unfold is_node in H'. rewrite E in H'.
+    apply is_node_haskey in H'. congruence.
+Qed.
+Definition frz (k : Z) (X : Z -> Prop) (s s' : state) : Prop :=
+  ft s' = ft s /\ (forall n, ~ X n -> has_node s' n = has_node s n) /\
+  (forall n, ~ X n -> attr s' n k = attr s n k).
+(* a regionprops key that is switched off *)
+Definition disabled_rp (st : state) (k : Z) : Prop :=
+  In k (rp_all (ft st)) /\ ~ In k (rp_act (ft st)) /\ k <> KTrack /\ k <> KLin.
+
+Lemma disabled_rp_intro st k : cfg_keys st -> In k (rp_all (ft st)) -> ~ In k (rp_act (ft st)) -> disabled_rp st k.
+Proof. intros C H1 H2. destruct (cfg_rp_not_special st k C H1) as (_ & A & B & _). repeat split; assumption. Qed.
+
+Lemma frz_refl k X s : frz k X s s.
+Proof. repeat split; reflexivity. Qed.
+Lemma frz_trans k X a b c : frz k X a b -> frz k X b c -> frz k X a c.
+Proof.
+  intros (A1 & A2 & A3) (B1 & B2 & B3). split; [congruence|]. split; intros n Hn; [rewrite B2, A2|rewrite B3, A3]; auto.
+Qed.
+Lemma frz_weaken k (X Y : Z -> Prop) a b : (forall n, X n -> Y n) -> frz k X a b -> frz k Y a b.
+Proof. intros H (A1 & A2 & A3). split; [exact A1|]. split; intros n Hn; [apply A2|apply A3]; auto. Qed.
+Lemma frz_keep k X (K : Z -> Prop) s s' : ft s' = ft s -> nodes_keep K s s' -> ~ K k -> frz k X s s'.
+Proof. intros E [H0 H] Hk. split; [exact E|]. split; intros n _; [now apply has_node_ids|now apply H]. Qed.
+Lemma frz_nodes k X s s' : ft s' = ft s -> nodes (g s') = nodes (g s) -> frz k X s s'.
+Proof.
+  intros E H. split; [exact E|]. split; intros n _; [unfold has_node|unfold attr, node_attrs]; now rewrite H.
+Qed.
+Lemma disabled_rp_ft s s' k : ft s' = ft s -> disabled_rp s k -> disabled_rp s' k.
+Proof. intros E. unfold disabled_rp. now rewrite E. Qed.
+
+(* the relation that composes along a sequence of sub-actions *)
+Definition frozen (k : Z) (X : Z -> Prop) (s s' : state) : Prop := disabled_rp s k -> frz k X s s'.
+Lemma frozen_refl k X s : frozen k X s s.
+Proof. intros _. apply frz_refl. Qed.
+Lemma frozen_trans k X a b c : frozen k X a b -> frozen k X b c -> frozen k X a c.
+Proof.
+  intros A B D. pose proof (A D) as A'. eapply frz_trans; [exact A'|]. apply B.
+  eapply disabled_rp_ft; [apply A'|exact D].
+Qed.
+Lemma frozen_weaken k (X Y : Z -> Prop) a b : (forall n, X n -> Y n) -> frozen k X a b -> frozen k Y a b.
+Proof. intros H A D. eapply frz_weaken; [exact H|now apply A]. Qed.
+Lemma frozen_bind {A B} k X (r : res A) (f : A -> state -> res B) st :
+  frozen k X st (rstate r) -> (forall a s, r = Ok a s -> frozen k X s (rstate (f a s))) ->
+  frozen k X st (rstate (bind r f)).
+Proof. apply bind_rel. apply frozen_trans. Qed.
+
+(* ---- writes ---- *)
+Lemma set_pixels_g st px v : g (rstate (set_pixels st px v)) = g st /\ ft (rstate (set_pixels st px v)) = ft st.
+Proof. unfold set_pixels. destruct (seg st) as [sg|]; [|auto]. destruct (frame_ok sg (fst px)); auto. Qed.
+
+Lemma frozen_rp_update k X st n : frozen k X st (rp_update st n).
+Proof.
+  intros (_ & D & _). destruct (rp_update_graph_only st n) as (_ & E & _).
+  eapply frz_keep; [exact E|apply rp_update_keep|exact D].
+Qed.
+
+Lemma frozen_upd_seg k X st n px added : frozen k X st (rstate (do_upd_seg st n px added)).
+Proof.
+  unfold do_upd_seg. apply frozen_bind.
+  - intros _. destruct (set_pixels_g st px (if added then n else 0)) as [G F].
+    apply frz_nodes; [exact F|now rewrite G].
+  - intros [] s _. destruct (negb (has_node s n) && _); [apply frozen_refl|].
+    destruct (negb (has_node s n) && _); [apply frozen_refl|]. cbn [rstate].
+    eapply frozen_trans; [apply frozen_rp_update|]. intros _.
+    apply frz_nodes; [apply iou_update_ft|apply iou_update_nodes].
+Qed.
+
+Lemma frozen_add_edge k X st u v a : frozen k X st (rstate (do_add_edge st u v a)).
+Proof. intros _. destruct (add_edge_effect st u v a) as (_ & F & N). now apply frz_nodes. Qed.
+Lemma frozen_del_edge k X st u v : frozen k X st (rstate (do_del_edge st u v)).
+Proof. intros _. destruct (del_edge_effect st u v) as (_ & F & N). now apply frz_nodes. Qed.
+
+Lemma frozen_upd_track k X st start newT newL : frozen k X st (rstate (do_upd_track st start newT newL)).
+Proof.
+  intros (_ & _ & D1 & D2). destruct (upd_track_effect st start newT newL) as ((_ & F & _) & K).
+  eapply frz_keep; [exact F|exact K|]. tauto.
+Qed.
+
+Lemma frozen_upd_attrs k X st n new : frozen k X st (rstate (do_upd_attrs st n new)).
+Proof.
+  intros (D & _). destruct (upd_attrs_effect st n new) as ((_ & F & _) & K).
+  eapply frz_keep; [exact F|exact K|]. intros [_ H]. apply memz_false in H. apply H.
+  apply protected_available. left. unfold available. apply in_app_iff. now left.
+Qed.
+
+(* AddNode / DeleteNode write one node only - whatever the flags *)
+Definition nd_of (s : state) (n : Z) : option attrs := lookup n (nodes (g s)).
+Lemma nd_of_attr s s' n k : nd_of s' n = nd_of s n -> attr s' n k = attr s n k.
+Proof. unfold nd_of, attr, node_attrs, getd. now intros ->. Qed.
+Lemma nd_of_has_node s s' n : nd_of s' n = nd_of s n -> has_node s' n = has_node s n.
+Proof. unfold nd_of, has_node, haskey. now intros ->. Qed.
+
+Lemma sna_nd_other st m k v n : n <> m -> nd_of (set_node_attr st m k v) n = nd_of st n.
+Proof.
+  intros Hn. unfold nd_of, set_node_attr. destruct (lookup m (nodes (g st))); [|reflexivity].
+  cbn [g nodes upd_g]. now apply lookup_set_neq.
+Qed.
+Lemma fold_nd_other {X} (f : state -> X -> state) n (l : list X) :
+  (forall s x, nd_of (f s x) n = nd_of s n) -> forall s, nd_of (fold_left f l s) n = nd_of s n.
+Proof. intros Hf. induction l as [|x r IH]; intros s; cbn [fold_left]; [reflexivity|]. now rewrite IH, Hf. Qed.
+
+Lemma add_node_core_nd st m a n : n <> m -> nd_of (add_node_core st m a) n = nd_of st n.
+Proof.
+  intros Hn. unfold add_node_core.
+  set (s2 := if haskey m (nodes (g st)) then st else _).
+  assert (H2 : nd_of s2 n = nd_of st n).
+  { unfold s2. destruct (haskey m (nodes (g st))); [reflexivity|].
+    unfold nd_of. cbn [g nodes upd_g]. rewrite lookup_snoc.
+    destruct (lookup n (nodes (g st))); [reflexivity|]. destruct (Z.eqb_spec n m); [contradiction|reflexivity]. }
+  rewrite <- H2. set (s3 := set_attrs s2 m a).
+  assert (H3 : nd_of s3 n = nd_of s2 n).
+  { unfold s3, set_attrs. apply fold_nd_other. intros s kv. now apply sna_nd_other. }
+  rewrite <- H3. unfold rp_update. destruct (seg s3) as [sg|]; [|reflexivity].
+  apply fold_nd_other. intros s kk. now apply sna_nd_other.
+Qed.
+
+Lemma do_add_node_nd st m a px n : n <> m -> nd_of (rstate (do_add_node st m a px)) n = nd_of st n.
+Proof.
+  intros Hn. unfold do_add_node.
+  destruct (negb (haskey KTime a)); [reflexivity|]. destruct (negb (haskey KTrack a)); [reflexivity|].
+  destruct (match px with None => negb (all_in (pos_keys (ft st)) a) | Some _ => false end); [reflexivity|].
+  assert (G : g (rstate (match px with Some p => set_pixels st p m | None => Ok tt st end)) = g st).
+  { destruct px as [p|]; [apply set_pixels_g|reflexivity]. }
+  destruct (match px with Some p => set_pixels st p m | None => Ok tt st end) as [[] st1|e st1]; cbn [bind rstate] in *.
+  2:{ unfold nd_of. now rewrite G. }
+  fold (set_attrs (if haskey m (nodes (g st1)) then st1 else upd_g st1 {| nodes := nodes (g st1) ++ [(m, [])]; succs := set m (getd m (succs (g st1)) []) (succs (g st1)) |}) m a).
+  change (rp_update (set_attrs (if haskey m (nodes (g st1)) then st1 else upd_g st1 {| nodes := nodes (g st1) ++ [(m, [])]; succs := set m (getd m (succs (g st1)) []) (succs (g st1)) |}) m a) m) with (add_node_core st1 m a).
+  set (s4 := add_node_core st1 m a).
+  assert (H4 : nd_of s4 n = nd_of st n).
+  { unfold s4. rewrite add_node_core_nd by exact Hn. unfold nd_of. now rewrite G. }
+  destruct (negb (trk_act (ft s4))); [exact H4|].
+  destruct (zattr s4 m KTrack) as [t|]; [|exact H4].
+  destruct (if lin_act (ft s4) then _ else _) as [lb ml]. exact H4.
+Qed.
+
+Lemma do_del_node_nd st m pxo n : n <> m -> nd_of (rstate (do_del_node st m pxo)) n = nd_of st n.
+Proof.
+  intros Hn. unfold do_del_node. destruct (lookup m (nodes (g st))) as [d|]; [|reflexivity].
+  set (px := match pxo with Some p => Some p | None => get_pixels st m end).
+  assert (G : g (rstate (match px with Some p => set_pixels st p 0 | None => Ok tt st end)) = g st).
+  { destruct px as [p|]; [apply set_pixels_g|reflexivity]. }
+  destruct (match px with Some p => set_pixels st p 0 | None => Ok tt st end) as [[] st1|e st1]; cbn [bind rstate] in *.
+  2:{ unfold nd_of. now rewrite G. }
+  set (s2 := upd_g st1 _).
+  assert (H2 : nd_of s2 n = nd_of st n).
+  { unfold nd_of, s2. cbn [g nodes upd_g]. rewrite lookup_del_neq by exact Hn. now rewrite G. }
+  destruct (negb (trk_act (ft s2))); exact H2.
+Qed.
+
+Lemma do_add_node_other st m a px n k : n <> m -> attr (rstate (do_add_node st m a px)) n k = attr st n k.
+Proof. intros H. now apply nd_of_attr, do_add_node_nd. Qed.
+Lemma do_del_node_other st m pxo n k : n <> m -> attr (rstate (do_del_node st m pxo)) n k = attr st n k.
+Proof. intros H. now apply nd_of_attr, do_del_node_nd. Qed.
+
+Lemma frozen_add_node k st m a px : frozen k (eq m) st (rstate (do_add_node st m a px)).
+Proof.
+  intros _. split; [apply aux_ft, aux_do_add_node|].
+  split; intros n Hn; [apply nd_of_has_node|apply nd_of_attr]; apply do_add_node_nd; congruence.
+Qed.
+Lemma frozen_del_node k st m pxo : frozen k (eq m) st (rstate (do_del_node st m pxo)).
+Proof.
+  intros _. split; [apply aux_ft, aux_do_del_node|].
+  split; intros n Hn; [apply nd_of_has_node|apply nd_of_attr]; apply do_del_node_nd; congruence.
+Qed.
+
+(* ---- undo / redo of a basic action ---- *)
+Definition basic_nodes (b : basic) (n : Z) : Prop :=
+  match b with BAddNode m _ _ | BDelNode m _ _ => n = m | _ => False end.
+
+Lemma frozen_inv_basic k st b : frozen k (basic_nodes b) st (rstate (inv_basic st b)).
+Proof.
+  destruct b; cbn [inv_basic].
+  - eapply frozen_weaken; [|apply frozen_del_node]. cbn. auto.
+  - eapply frozen_weaken; [|apply frozen_add_node]. cbn. auto.
+  - apply frozen_del_edge.
+  - apply frozen_add_edge.
+  - apply frozen_upd_attrs.
+  - apply frozen_upd_seg.
+  - apply frozen_upd_track.
+Qed.
+
+(* ---- undo / redo of a recorded action ---- *)
+Fixpoint action_nodes (a : action) (n : Z) : Prop :=
+  match a with
+  | ABasic b => basic_nodes b n
+  | AGroup l => (fix go (l : list action) : Prop := match l with [] => False | x :: r => action_nodes x n \/ go r end) l
+  end.
+Fixpoint actions_nodes (l : list action) (n : Z) : Prop :=
+  match l with [] => False | x :: r => action_nodes x n \/ actions_nodes r n end.
+Lemma action_nodes_group l n : action_nodes (AGroup l) n = actions_nodes l n.
+Proof. cbn. induction l as [|x r IH]; [reflexivity|]. now rewrite IH. Qed.
+
+(* continuation form (as in Proofs/EditFrame.v): [s0] is the state the whole action started from *)
+Lemma frozen_lift k X s0 st st' : frozen k X st st' -> frozen k X s0 st -> frozen k X s0 st'.
+Proof. intros A B. eapply frozen_trans; eauto. Qed.
+Lemma frozen_bind' {A B} k X s0 (r : res A) (f : A -> state -> res B) :
+  frozen k X s0 (rstate r) -> (forall a s, frozen k X s0 s -> frozen k X s0 (rstate (f a s))) ->
+  frozen k X s0 (rstate (bind r f)).
+Proof. intros Hr Hf. destruct r as [a s|e s]; cbn in *; [now apply Hf|exact Hr]. Qed.
+
+Lemma frozen_inv_action' k (X : Z -> Prop) : forall a s0 st, (forall n, action_nodes a n -> X n) ->
+  frozen k X s0 st -> frozen k X s0 (rstate (inv_action st a)).
+Proof.
+  induction a as [b|l IHl] using action_ind2; intros s0 st HX H.
+  - cbn [inv_action]. apply frozen_bind'; [|intros; assumption].
+    eapply frozen_lift; [|exact H]. eapply frozen_weaken; [|apply frozen_inv_basic]. exact HX.
+  - rewrite inv_action_group. apply frozen_bind'; [|intros; assumption].
+    assert (HX' : forall n, actions_nodes l n -> X n) by (intros n Hn; apply HX; now rewrite action_nodes_group).
+    clear HX. revert st H. induction IHl as [|a r Ha Hr IH]; intros st H.
+    + exact H.
+    + change (inv_list (a :: r) st)
+        with (do accr, s <- inv_list r st; do a', s2 <- inv_action s a; Ok (accr ++ [a']) s2).
+      apply frozen_bind'; [apply IH; [intros n Hn; apply HX'; now right|exact H]|]. intros accr s Hs.
+      apply frozen_bind'; [apply Ha; [intros n Hn; apply HX'; now left|exact Hs]|intros; assumption].
+Qed.
+
+Theorem frozen_inv_action k st a : frozen k (action_nodes a) st (rstate (inv_action st a)).
+Proof. apply frozen_inv_action'; [auto|apply frozen_refl]. Qed.
+
+(* ---- the user actions ---- *)
+Lemma frozen_upd_hist k X s0 s u r : frozen k X s0 s -> frozen k X s0 (upd_hist s u r).
+Proof. intros H D. exact (H D). Qed.
+Lemma frozen_emit k X s0 s p : frozen k X s0 s -> frozen k X s0 (emit s p).
+Proof. intros H D. exact (H D). Qed.
+Lemma frozen_finish_top k X s0 s a p : frozen k X s0 s -> frozen k X s0 (finish_top s a p).
+Proof. intros H. unfold finish_top, hist_add. apply frozen_emit. destruct (redo_stack s); now apply frozen_upd_hist. Qed.
+Lemma frozen_top_wrap' k X s0 top p r : frozen k X s0 (rstate r) -> frozen k X s0 (rstate (top_wrap top p r)).
+Proof. intros H. destruct r as [a s|e s]; cbn [top_wrap rstate] in *; [|exact H]. destruct top; [now apply frozen_finish_top|exact H]. Qed.
+Lemma frozen_track_neighbors' k X s0 st T t : frozen k X s0 st -> frozen k X s0 (fst (track_neighbors st T t)).
+Proof.
+  apply frozen_lift. intros _. destruct (track_neighbors_frame st T t) as (G & _ & A).
+  apply frz_nodes; [now apply aux_ft|now rewrite G].
+Qed.
+
+Lemma frozen_del_edge' k X s0 st u v : frozen k X s0 st -> frozen k X s0 (rstate (do_del_edge st u v)).
+Proof. apply frozen_lift, frozen_del_edge. Qed.
+Lemma frozen_add_edge' k X s0 st u v a : frozen k X s0 st -> frozen k X s0 (rstate (do_add_edge st u v a)).
+Proof. apply frozen_lift, frozen_add_edge. Qed.
+Lemma frozen_upd_track' k X s0 st a b c : frozen k X s0 st -> frozen k X s0 (rstate (do_upd_track st a b c)).
+Proof. apply frozen_lift, frozen_upd_track. Qed.
+Lemma frozen_upd_attrs' k X s0 st n new : frozen k X s0 st -> frozen k X s0 (rstate (do_upd_attrs st n new)).
+Proof. apply frozen_lift, frozen_upd_attrs. Qed.
+Lemma frozen_upd_seg' k X s0 st n px added : frozen k X s0 st -> frozen k X s0 (rstate (do_upd_seg st n px added)).
+Proof. apply frozen_lift, frozen_upd_seg. Qed.
+Lemma frozen_add_node' k (X : Z -> Prop) s0 st m a px : X m -> frozen k X s0 st -> frozen k X s0 (rstate (do_add_node st m a px)).
+Proof. intros Hm. apply frozen_lift. eapply frozen_weaken; [|apply frozen_add_node]. now intros n <-. Qed.
+Lemma frozen_del_node' k (X : Z -> Prop) s0 st m pxo : X m -> frozen k X s0 st -> frozen k X s0 (rstate (do_del_node st m pxo)).
+Proof. intros Hm. apply frozen_lift. eapply frozen_weaken; [|apply frozen_del_node]. now intros n <-. Qed.
+
+Ltac fz_lem := first [ apply frozen_del_edge' | apply frozen_add_edge' | apply frozen_upd_track'
+  | apply frozen_upd_attrs' | apply frozen_upd_seg' ].
+Ltac fz_step :=
+  lazymatch goal with
+  | |- forall _, _ => intro
+  | H : frozen ?k ?X ?a ?b |- frozen ?k ?X ?a ?b => exact H
+  | |- frozen _ _ ?a ?a => apply frozen_refl
+  | H : frozen ?k ?X ?s0 ?s |- frozen ?k ?X ?s0 (rstate (match track_neighbors ?s ?T ?t with _ => _ end)) =>
+      let Hn := fresh "Hn" in
+      pose proof (frozen_track_neighbors' k X s0 s T t H) as Hn;
+      destruct (track_neighbors s T t) as [? [? ?]] eqn:?; cbn [fst] in Hn
+  | |- frozen _ _ _ (rstate (top_wrap _ _ _)) => apply frozen_top_wrap'
+  | |- frozen _ _ _ (rstate (bind _ _)) => apply frozen_bind'
+  | |- frozen _ _ _ (rstate (Ok _ _)) => cbn [rstate]
+  | |- frozen _ _ _ (rstate (Err _ _)) => cbn [rstate]
+  | |- frozen ?k ?X ?s0 (rstate (match ?c with _ => _ end)) =>
+      lazymatch type of c with
+      | res _ => let H := fresh "Hc" in
+                 assert (H : frozen k X s0 (rstate c));
+                 [ | destruct c eqn:?; cbn [rstate] in H ]
+      | _ => destruct c eqn:?
+      end
+  | |- frozen _ _ _ (match ?c with _ => _ end) => destruct c eqn:?
+  | |- frozen _ _ _ ((fun _ => _) _) => cbv beta
+  | |- frozen _ _ _ (rstate ((fun _ => _) _)) => cbv beta
+  | |- frozen _ _ _ _ => fz_lem
+  end.
+Ltac fz := repeat fz_step.
+
+Lemma frozen_ude_core' k X s0 st u v : frozen k X s0 st -> frozen k X s0 (rstate (user_delete_edge_core st u v)).
+Proof. intros H. unfold user_delete_edge_core. cbv zeta. fz. Qed.
+Lemma frozen_ude' k X s0 st u v top : frozen k X s0 st -> frozen k X s0 (rstate (user_delete_edge st u v top)).
+Proof. intros H. unfold user_delete_edge. apply frozen_top_wrap', frozen_ude_core', H. Qed.
+Ltac fz_lem ::= first [ apply frozen_del_edge' | apply frozen_add_edge' | apply frozen_upd_track'
+  | apply frozen_upd_attrs' | apply frozen_upd_seg' | apply frozen_ude_core' | apply frozen_ude' ].
+
+Lemma frozen_uae_core' k X s0 st u v force : frozen k X s0 st -> frozen k X s0 (rstate (user_add_edge_core st u v force)).
+Proof. intros H. unfold user_add_edge_core. cbv zeta. fz. Qed.
+Lemma frozen_uae' k X s0 st u v force top : frozen k X s0 st -> frozen k X s0 (rstate (user_add_edge st u v force top)).
+Proof. intros H. unfold user_add_edge. apply frozen_top_wrap', frozen_uae_core', H. Qed.
+
+Lemma frozen_udn_preds' k X n ps : forall s0 s acc, frozen k X s0 s -> frozen k X s0 (rstate (udn_preds n ps s acc)).
+Proof. induction ps as [|p r IH]; intros s0 s acc H; cbn [udn_preds]; cbv zeta; fz. apply IH. fz. Qed.
+Lemma frozen_udn_succs' k X n cs : forall s0 s acc, frozen k X s0 s -> frozen k X s0 (rstate (udn_succs n cs s acc)).
+Proof. induction cs as [|c r IH]; intros s0 s acc H; cbn [udn_succs]; fz. apply IH. fz. Qed.
+Lemma frozen_udn_orphans' k X os : forall s0 s acc, frozen k X s0 s -> frozen k X s0 (rstate (udn_orphans os s acc)).
+Proof. induction os as [|o r IH]; intros s0 s acc H; cbn [udn_orphans]; fz. apply IH. fz. Qed.
+Ltac fz_lem ::= first [ apply frozen_del_edge' | apply frozen_add_edge' | apply frozen_upd_track'
+  | apply frozen_upd_attrs' | apply frozen_upd_seg' | apply frozen_ude_core' | apply frozen_ude'
+  | apply frozen_uae_core' | apply frozen_uae'
+  | apply frozen_udn_preds' | apply frozen_udn_succs' | apply frozen_udn_orphans'
+  | (apply frozen_del_node'; [assumption|]) | (apply frozen_add_node'; [assumption|]) ].
+
+Lemma frozen_udn_core' k (X : Z -> Prop) s0 st n pxo : X n ->
+  frozen k X s0 st -> frozen k X s0 (rstate (user_delete_node_core st n pxo)).
+Proof. intros Hn H. unfold user_delete_node_core. cbv zeta. fz. Qed.
+Lemma frozen_udn' k (X : Z -> Prop) s0 st n pxo top : X n ->
+  frozen k X s0 st -> frozen k X s0 (rstate (user_delete_node st n pxo top)).
+Proof. intros Hn H. unfold user_delete_node. now apply frozen_top_wrap', frozen_udn_core'. Qed.
+
+Lemma frozen_uan_conflicts' k X s0 st pred succ force : frozen k X s0 st -> frozen k X s0 (rstate (uan_conflicts st pred succ force)).
+Proof. intros H. now rewrite uan_conflicts_state. Qed.
+Lemma frozen_uan_cut' k X es : forall s0 s acc, frozen k X s0 s -> frozen k X s0 (rstate (uan_cut es s acc)).
+Proof. induction es as [|e r IH]; intros s0 s acc H; cbn [uan_cut]; fz. apply IH. fz. Qed.
+Ltac fz_lem ::= first [ apply frozen_del_edge' | apply frozen_add_edge' | apply frozen_upd_track'
+  | apply frozen_upd_attrs' | apply frozen_upd_seg' | apply frozen_ude_core' | apply frozen_ude'
+  | apply frozen_uae_core' | apply frozen_uae'
+  | apply frozen_udn_preds' | apply frozen_udn_succs' | apply frozen_udn_orphans'
+  | apply frozen_uan_conflicts' | apply frozen_uan_cut'
+  | (apply frozen_del_node'; [assumption|]) | (apply frozen_add_node'; [assumption|]) ].
+
+Lemma frozen_uan_core' k (X : Z -> Prop) s0 st n a px force : X n ->
+  frozen k X s0 st -> frozen k X s0 (rstate (user_add_node_core st n a px force)).
+Proof. intros Hn H. unfold user_add_node_core. cbv zeta. fz. Qed.
+Lemma frozen_uan' k (X : Z -> Prop) s0 st n a px force top : X n ->
+  frozen k X s0 st -> frozen k X s0 (rstate (user_add_node st n a px force top)).
+Proof. intros Hn H. unfold user_add_node. now apply frozen_top_wrap', frozen_uan_core'. Qed.
+
+Lemma frozen_swap_core' k X s0 st n1 n2 : frozen k X s0 st -> frozen k X s0 (rstate (user_swap_core st n1 n2)).
+Proof. intros H. unfold user_swap_core. cbv zeta. fz. Qed.
+Lemma frozen_uua_core' k X s0 st n new : frozen k X s0 st -> frozen k X s0 (rstate (user_update_attrs_core st n new)).
+Proof. intros H. unfold user_update_attrs_core. fz. Qed.
+
+(* ---- one call of the public API (paint strokes: flags only, see the report) ---- *)
+Definition op_nodes (st : state) (o : op) (n : Z) : Prop :=
+  match o with
+  | OAddNode m _ _ _ | ODelNode m => n = m
+  | OUndo => match nth_error (undo_stack st) (length (undo_stack st) - length (redo_stack st) - 1) with
+             | Some a => action_nodes a n | None => False end
+  | ORedo => match rev (redo_stack st) with b :: _ => action_nodes b n | [] => False end
+  | OPaint _ _ _ _ _ => True
+  | _ => False
+  end.
+
+Lemma frozen_fin {A} k X st (r : res A) : frozen k X st (rstate r) -> frozen k X st (fst (fin r)).
+Proof. destruct r; exact (fun H => H). Qed.
+Lemma frozen_finb k X st (r : res bool) : frozen k X st (rstate r) -> frozen k X st (fst (finb r)).
+Proof. destruct r; exact (fun H => H). Qed.
+
+Theorem frozen_step k st o : frozen k (op_nodes st o) st (fst (step st o)).
+Proof.
+  destruct o; unfold op_nodes; cbn [step].
+  - apply frozen_fin, frozen_uae', frozen_refl.
+  - apply frozen_fin, frozen_ude', frozen_refl.
+  - apply frozen_fin, frozen_uan'; [reflexivity|apply frozen_refl].
+  - apply frozen_fin, frozen_udn'; [reflexivity|apply frozen_refl].
+  - apply frozen_fin. unfold user_swap. apply frozen_top_wrap', frozen_swap_core', frozen_refl.
+  - apply frozen_fin. unfold user_update_attrs. apply frozen_top_wrap', frozen_uua_core', frozen_refl.
+  - intros _. split; [|intros n Hn; exfalso; now apply Hn].
+    pose proof (paint_ft st new_value t idx T force) as H. destruct (paint _ _ _ _ _ _); exact H.
+  - apply frozen_finb. unfold undo. cbv zeta. destruct (_ <=? _)%nat; [apply frozen_refl|].
+    destruct (nth_error _ _) as [a|]; [|apply frozen_refl].
+    apply frozen_bind'; [apply frozen_inv_action|]. intros b s H. cbn [rstate]. now apply frozen_emit, frozen_upd_hist.
+  - apply frozen_finb. unfold redo. destruct (rev (redo_stack st)) as [|b r']; [apply frozen_refl|].
+    apply frozen_bind'.
+    + apply frozen_inv_action'; [auto|]. apply frozen_upd_hist, frozen_refl.
+    + intros x s H. cbn [rstate]. now apply frozen_emit.
+  - pose proof (frozen_track_neighbors' k (fun _ => False) st st T t (frozen_refl _ _ _)) as H.
+    destruct (track_neighbors st T t) as [s [p c]]. exact H.
+  - apply frozen_refl.
+  - pose proof (get_new_node_ids_frame st n) as (G & _ & F & _). destruct (get_new_node_ids st n) as [s ids].
+    cbn [fst] in *. intros _. apply frz_nodes; [exact F|now rewrite G].
+  - apply frozen_refl.
+Qed.
+
+(* ---- the edge feature ---- *)
+Theorem iou_disabled_no_update st es : iou_act (ft st) = false -> iou_update_edges st es = st.
+Proof. intros H. apply iou_update_inactive. now right. Qed.
+
+(* [efrz E s s']: flags the same, the attribute dictionary of every edge outside E the same *)
+Definition efrz (E : Z -> Z -> Prop) (s s' : state) : Prop :=
+  ft s' = ft s /\ forall a b, ~ E a b -> edge_attrs s' a b = edge_attrs s a b.
+Definition efrozen (E : Z -> Z -> Prop) (s s' : state) : Prop := iou_act (ft s) = false -> efrz E s s'.
+
+Lemma efrz_succs E s s' : ft s' = ft s -> succs (g s') = succs (g s) -> efrz E s s'.
+Proof. intros F H. split; [exact F|]. intros a b _. now apply edge_attrs_succs. Qed.
+
+Lemma efrozen_upd_seg E st n px added : efrozen E st (rstate (do_upd_seg st n px added)).
+Proof.
+  intros Hi. unfold do_upd_seg. destruct (set_pixels_g st px (if added then n else 0)) as [G F].
+  destruct (set_pixels st px (if added then n else 0)) as [[] s|e s]; cbn [bind rstate] in *.
+  2:{ apply efrz_succs; [exact F|now rewrite G]. }
+  assert (Hs : efrz E st s) by (apply efrz_succs; [exact F|now rewrite G]).
+  destruct (negb (has_node s n) && _); [exact Hs|].
+  destruct (negb (has_node s n) && _); [exact Hs|]. cbn [rstate].
+  destruct (rp_update_graph_only s n) as (_ & F2 & S2).
+  rewrite iou_disabled_no_update by (rewrite F2, F; exact Hi).
+  apply efrz_succs; [congruence|]. now rewrite S2, G.
+Qed.
+
+Lemma efrozen_add_edge st u v a : efrozen (fun x y => x = u /\ y = v) st (rstate (do_add_edge st u v a)).
+Proof.
+  intros Hi. unfold do_add_edge. destruct (negb (has_node st u)); [apply efrz_succs; reflexivity|].
+  destruct (negb (has_node st v)); [apply efrz_succs; reflexivity|]. cbn [rstate].
+  rewrite iou_disabled_no_update by exact Hi. split; [reflexivity|]. intros x y Hxy.
+  set (st' := upd_g st _).
+  assert (Hs : succs (g st') = set u (set v (update (edge_attrs st u v) a) (adj st u)) (succs (g st))) by reflexivity.
+  destruct (edge_put _ _ _ _ _ Hs) as [_ H2]. rewrite H2.
+  destruct (Z.eqb_spec x u) as [->|]; [|reflexivity]. destruct (Z.eqb_spec y v) as [->|]; [|reflexivity]. tauto.
+Qed.
+
+Lemma efrozen_del_edge st u v : efrozen (fun x y => x = u /\ y = v) st (rstate (do_del_edge st u v)).
+Proof.
+  intros _. unfold do_del_edge. destruct (negb (has_edge st u v)); [apply efrz_succs; reflexivity|]. cbn [rstate].
+  split; [reflexivity|]. intros x y Hxy. set (st' := upd_g st _).
+  assert (Hs : succs (g st') = set u (del v (adj st u)) (succs (g st))) by reflexivity.
+  destruct (edge_drop _ _ _ _ Hs) as [_ H2]. now apply H2.
+Qed.
+
+Lemma efrozen_upd_track E st start newT newL : efrozen E st (rstate (do_upd_track st start newT newL)).
+Proof. intros _. destruct (upd_track_effect st start newT newL) as ((_ & F & S) & _). now apply efrz_succs. Qed.
+Lemma efrozen_upd_attrs E st n new : efrozen E st (rstate (do_upd_attrs st n new)).
+Proof. intros _. destruct (upd_attrs_effect st n new) as ((_ & F & S) & _). now apply efrz_succs. Qed.
+
+Lemma add_node_core_adj st m a u : adj (add_node_core st m a) u = adj st u.
+Proof.
+  unfold add_node_core. set (s2 := if haskey m (nodes (g st)) then st else _).
+  destruct (rp_update_graph_only (set_attrs s2 m a) m) as (_ & _ & S4).
+  destruct (set_attrs_graph_only s2 m a) as (_ & _ & S3).
+  unfold adj. rewrite S4, S3. unfold s2. destruct (haskey m (nodes (g st))); [reflexivity|]. cbn [g succs upd_g].
+  destruct (Z.eq_dec u m) as [->|Hu]; [now rewrite getd_set_eq|now rewrite getd_set_neq].
+Qed.
+
+Lemma efrozen_add_node E st m a px : efrozen E st (rstate (do_add_node st m a px)).
+Proof.
+  intros _. split; [apply aux_ft, aux_do_add_node|]. intros x y _. unfold do_add_node.
+  destruct (negb (haskey KTime a)); [reflexivity|]. destruct (negb (haskey KTrack a)); [reflexivity|].
+  destruct (match px with None => negb (all_in (pos_keys (ft st)) a) | Some _ => false end); [reflexivity|].
+  assert (G : g (rstate (match px with Some p => set_pixels st p m | None => Ok tt st end)) = g st).
+  { destruct px as [p|]; [apply set_pixels_g|reflexivity]. }
+  destruct (match px with Some p => set_pixels st p m | None => Ok tt st end) as [[] st1|e st1]; cbn [bind rstate] in *.
+  2:{ unfold edge_attrs, adj. now rewrite G. }
+  fold (set_attrs (if haskey m (nodes (g st1)) then st1 else upd_g st1 {| nodes := nodes (g st1) ++ [(m, [])]; succs := set m (getd m (succs (g st1)) []) (succs (g st1)) |}) m a).
+  change (rp_update (set_attrs (if haskey m (nodes (g st1)) then st1 else upd_g st1 {| nodes := nodes (g st1) ++ [(m, [])]; succs := set m (getd m (succs (g st1)) []) (succs (g st1)) |}) m a) m) with (add_node_core st1 m a).
+  set (s4 := add_node_core st1 m a).
+  assert (H4 : edge_attrs s4 x y = edge_attrs st x y).
+  { unfold edge_attrs, s4. rewrite add_node_core_adj. unfold adj. now rewrite G. }
+  destruct (negb (trk_act (ft s4))); [exact H4|].
+  destruct (zattr s4 m KTrack) as [t|]; [|exact H4].
+  destruct (if lin_act (ft s4) then _ else _) as [lb ml]. exact H4.
+Qed.
+
+Lemma efrozen_del_node st m pxo : efrozen (fun x y => x = m \/ y = m) st (rstate (do_del_node st m pxo)).
+Proof.
+  intros _. split; [apply aux_ft, aux_do_del_node|]. intros x y Hxy. unfold do_del_node.
+  destruct (lookup m (nodes (g st))) as [d|]; [|reflexivity].
+  set (px := match pxo with Some p => Some p | None => get_pixels st m end).
+  assert (G : g (rstate (match px with Some p => set_pixels st p 0 | None => Ok tt st end)) = g st).
+  { destruct px as [p|]; [apply set_pixels_g|reflexivity]. }
+  destruct (match px with Some p => set_pixels st p 0 | None => Ok tt st end) as [[] st1|e st1]; cbn [bind rstate] in *.
+  2:{ unfold edge_attrs, adj. now rewrite G. }
+  set (s2 := upd_g st1 _).
+  assert (H2 : edge_attrs s2 x y = edge_attrs st x y).
+  { unfold edge_attrs, adj, getd, s2. cbn [g succs upd_g]. rewrite (lookup_map_snd (del m)), G.
+    destruct (Z.eq_dec x m) as [->|Hx]; [tauto|]. rewrite lookup_del_neq by exact Hx.
+    destruct (lookup x (succs (g st))) as [row|]; cbn [option_map]; [|reflexivity].
+    rewrite lookup_del_neq; [reflexivity|]. intros ->. tauto. }
+  destruct (negb (trk_act (ft s2))); exact H2.
+Qed.
+
+(* ================================================================== *)
+(* Part 5 : enabling with recomputation stores the reference values    *)
+(* ================================================================== *)
+Lemma labels_of_In_gen f : forall acc y,
+  In y (fold_left (fun acc x => if x =? 0 then acc else insert_sorted x acc) f acc) <-> In y acc \/ (In y f /\ y <> 0).
+Proof.
+  induction f as [|x r IH]; intros acc y; cbn [fold_left In]; [tauto|].
+  rewrite IH. destruct (Z.eqb_spec x 0) as [->|Hx].
+  - split; [intros [H|[H1 H2]]; auto|intros [H|[[<-|H1] H2]]; [auto|congruence|auto]].
+  - rewrite insert_sorted_In. split.
+    + intros [[->|H]|[H1 H2]]; auto.
+    + intros [H|[[<-|H1] H2]]; auto.
+Qed.
+Lemma labels_of_In f y : In y (labels_of f) <-> In y f /\ y <> 0.
+Proof. unfold labels_of. rewrite labels_of_In_gen. cbn [In]. tauto. Qed.
+
+Lemma fold_establish {X} (f : state -> X -> state) (I D : state -> Prop) (l : list X) (x : X) :
+  (forall s y, In y l -> I s -> I (f s y)) ->
+  (forall s y, In y l -> I s -> D s -> D (f s y)) ->
+  (forall s, I s -> D (f s x)) ->
+  In x l -> forall s, I s -> I (fold_left f l s) /\ D (fold_left f l s).
+Proof.
+  intros HI HD Hx. 
+  assert (Hpres : forall l', incl l' l -> forall s, I s -> (I (fold_left f l' s)) /\ (D s -> D (fold_left f l' s))).
+  { induction l' as [|y r IH]; intros Hl s Hs; cbn [fold_left]; [auto|].
+    assert (Hy : In y l) by (apply Hl; now left). assert (Hr : incl r l) by (intros z Hz; apply Hl; now right).
+    destruct (IH Hr (f s y) (HI s y Hy Hs)) as [A B]. split; [exact A|]. intros Hd. apply B. now apply HD. }
+  assert (Hgen : forall l', incl l' l -> In x l' -> forall s, I s -> D (fold_left f l' s)).
+  { induction l' as [|y r IH]; intros Hl Hin s Hs; [destruct Hin|]. cbn [fold_left].
+    assert (Hy : In y l) by (apply Hl; now left). assert (Hr : incl r l) by (intros z Hz; apply Hl; now right).
+    destruct Hin as [->|Hin].
+    - apply (Hpres r Hr (f s x) (HI s x Hy Hs)). now apply Hx.
+    - apply IH; [exact Hr|exact Hin|]. now apply HI. }
+  intros Hin s Hs. split; [apply (Hpres l (incl_refl l) s Hs)|apply Hgen; auto using incl_refl].
+Qed.
+
+Lemma fold_preserve {X} (f : state -> X -> state) (I : state -> Prop) (l : list X) :
+  (forall s y, In y l -> I s -> I (f s y)) -> forall s, I s -> I (fold_left f l s).
+Proof.
+  intros HI. assert (H : forall l', incl l' l -> forall s, I s -> I (fold_left f l' s)).
+  { induction l' as [|y r IH]; intros Hl s Hs; cbn [fold_left]; [exact Hs|].
+    apply IH; [intros z Hz; apply Hl; now right|]. apply HI; [apply Hl; now left|exact Hs]. }
+  apply H, incl_refl.
+Qed.
+
+Section RpCompute.
+Variables (st : state) (sg : list (list Z)) (ks' : list Z).
+Hypothesis Hseg : seg st = Some sg.
+Hypothesis HW : W_seg st.
+
+Let K (k : Z) : Prop := In k ks'.
+Let I (s : state) : Prop := nodes_keep K st s.
+Let D (n : Z) (s : state) : Prop := forall k, In k ks' -> attr s n k = Some (VRp (mask_of sg (time_of st n) n)).
+Let stepl (t : Z) (s : state) (l : Z) : state :=
+  if has_node s l then fold_left (fun s' k => set_node_attr s' l k (VRp (mask_of sg t l))) ks' s else s.
+
+Lemma rpc_label_time t l : frame_ok sg t = true -> In l (labels_of (frame_of sg t)) -> is_node st l /\ time_of st l = t.
+Proof.
+  intros Hf Hl. apply labels_of_In in Hl. destruct Hl as [Hin Hl0].
+  apply (In_nth _ _ 0) in Hin. destruct Hin as (i & _ & Hi).
+  destruct (proj1 (W_seg_iff _ _ Hseg) HW) as (_ & W2 & _).
+  specialize (W2 t i Hf). unfold label_at in W2. rewrite Hi in W2. now apply W2.
+Qed.
+
+Lemma rpc_node_label n : is_node st n ->
+  frame_ok sg (time_of st n) = true /\ In n (labels_of (frame_of sg (time_of st n))).
+Proof.
+  intros Hn. destruct (proj1 (W_seg_iff _ _ Hseg) HW) as (W1 & _ & W3).
+  destruct (W1 n Hn) as [Hf Hm]. split; [exact Hf|]. apply labels_of_In. split; [|now apply W3].
+  apply mask_nonempty in Hm. destruct Hm as (i & Hi & E). unfold label_at in E.
+  pose proof (nth_In _ 0 Hi) as H. rewrite E in H. exact H.
+Qed.
+
+Lemma rpc_stepl_I t s l : I s -> I (stepl t s l).
+Proof.
+  intros Hs. unfold stepl. destruct (has_node s l); [|exact Hs].
+  eapply nodes_keep_trans; [exact Hs|]. apply (set_keys_keep s l ks').
+Qed.
+
+Lemma rpc_stepl_D t s l n : (is_node st l -> time_of st l = t) -> I s -> D n s -> D n (stepl t s l).
+Proof.
+  intros Ht Hs Hd k Hk. unfold stepl. destruct (has_node s l) eqn:Hh; [|now apply Hd].
+  fold (set_keys s l ks' (VRp (mask_of sg t l))). rewrite set_keys_attr, Hh, andb_true_r.
+  destruct (Z.eqb_spec n l) as [->|Hne]; cbn [andb]; [|now apply Hd].
+  apply memz_In in Hk. rewrite Hk. rewrite Ht; [reflexivity|].
+  apply (nodes_keep_is_node _ _ _ l Hs). now apply is_node_haskey.
+Qed.
+
+Lemma rpc_stepl_est t s l : is_node st l -> time_of st l = t -> I s -> D l (stepl t s l).
+Proof.
+  intros Hl Ht Hs k Hk. unfold stepl.
+  assert (Hh : has_node s l = true) by (apply is_node_haskey; now apply (nodes_keep_is_node _ _ _ l Hs)).
+  rewrite Hh. fold (set_keys s l ks' (VRp (mask_of sg t l))). rewrite set_keys_attr, Hh, Z.eqb_refl.
+  apply memz_In in Hk. rewrite Hk. cbn [andb]. now rewrite Ht.
+Qed.
+
+Lemma rpc_frame_I t s : I s -> I (rp_compute_frame ks' sg s t).
+Proof. intros Hs. unfold rp_compute_frame. apply (fold_preserve (stepl t) I); [|exact Hs]. intros s' y _. apply rpc_stepl_I. Qed.
+
+Lemma rpc_frame_D t s n : frame_ok sg t = true -> I s -> D n s -> D n (rp_compute_frame ks' sg s t).
+Proof.
+  intros Hf Hs Hd. unfold rp_compute_frame.
+  apply (fold_preserve (stepl t) (fun s => I s /\ D n s)); [|auto].
+  intros s' y Hy [A B]. split; [now apply rpc_stepl_I|]. apply rpc_stepl_D; auto.
+  intros _. now apply (rpc_label_time t y Hf Hy).
+Qed.
+
+Lemma rpc_frame_est s n : is_node st n -> I s -> D n (rp_compute_frame ks' sg s (time_of st n)).
+Proof.
+  intros Hn Hs. destruct (rpc_node_label n Hn) as [Hf Hl]. unfold rp_compute_frame.
+  apply (fold_establish (stepl (time_of st n)) I (D n) _ n); auto.
+  - intros s' y _. apply rpc_stepl_I.
+  - intros s' y Hy A B. apply rpc_stepl_D; auto. intros _. now apply (rpc_label_time _ y Hf Hy).
+  - intros s' A. now apply rpc_stepl_est.
+Qed.
+
+Lemma rpc_frames_In t : In t (map Z.of_nat (seq 0 (length sg))) <-> frame_ok sg t = true.
+Proof.
+  rewrite frame_ok_range, in_map_iff. split.
+  - intros (i & <- & Hi). apply in_seq in Hi. lia.
+  - intros Ht. exists (Z.to_nat t). split; [lia|]. apply in_seq. lia.
+Qed.
+
+Lemma rpc_all : let s' := fold_left (rp_compute_frame ks' sg) (map Z.of_nat (seq 0 (length sg))) st in
+  nodes_keep K st s' /\ forall n, is_node st n -> D n s'.
+Proof.
+  cbv zeta. split.
+  - apply (fold_preserve (rp_compute_frame ks' sg) I); [|apply nodes_keep_refl]. intros s t _. apply rpc_frame_I.
+  - intros n Hn. destruct (rpc_node_label n Hn) as [Hf _].
+    apply (fold_establish (rp_compute_frame ks' sg) I (D n) _ (time_of st n)).
+    + intros s t _. apply rpc_frame_I.
+    + intros s t Ht. apply rpc_frame_D. now apply rpc_frames_In.
+    + intros s. now apply rpc_frame_est.
+    + now apply rpc_frames_In.
+    + apply nodes_keep_refl.
+Qed.
+End RpCompute.
+
+(* rp_compute as a whole: only the requested active keys are written, each with the value of the
+   node's mask in the node's own frame *)
+Theorem rp_compute_spec st sg ks : seg st = Some sg -> W_seg st ->
+  let s' := rp_compute st ks in
+  seg s' = Some sg /\ ft s' = ft st /\ succs (g s') = succs (g st) /\
+  nodes_keep (fun k => In k ks /\ In k (rp_act (ft st))) st s' /\
+  forall n k, is_node st n -> In k ks -> In k (rp_act (ft st)) ->
+    attr s' n k = Some (VRp (mask_of sg (time_of st n) n)).
+Proof.
+  intros Hs HW. cbv zeta.
+  assert (Hg : seg (rp_compute st ks) = Some sg /\ succs (g (rp_compute st ks)) = succs (g st)).
+  { unfold rp_compute. rewrite Hs. destruct (filter _ _) as [|k0 r]; [auto|]. split.
+    - rewrite <- Hs. apply fold_seg. intros s t. unfold rp_compute_frame. apply fold_seg. intros s' l.
+      destruct (has_node s' l); [|reflexivity]. apply fold_seg. intros s'' k. apply sna_seg.
+    - apply fold_succs. intros s t. unfold rp_compute_frame. apply fold_succs. intros s' l.
+      destruct (has_node s' l); [|reflexivity]. apply fold_succs. intros s'' k. apply sna_succs. }
+  destruct Hg as [Hg1 Hg2]. split; [exact Hg1|]. split; [apply rp_compute_ft|]. split; [exact Hg2|].
+  set (ks' := filter (fun k => memz k ks) (rp_act (ft st))).
+  assert (Hin : forall k, In k ks' <-> In k ks /\ In k (rp_act (ft st))).
+  { intros k. unfold ks'. rewrite filter_In, memz_In. tauto. }
+  destruct (rpc_all st sg ks' Hs HW) as [A B].
+  unfold rp_compute. rewrite Hs. fold ks'. destruct ks' as [|k0 r] eqn:E.
+  - split; [apply nodes_keep_refl|]. intros n k _ H1 H2. exfalso. apply (proj2 (Hin k)). auto.
+  - rewrite <- E in *. split.
+    + eapply nodes_keep_weaken; [|exact A]. intros k. apply Hin.
+    + intros n k Hn H1 H2. apply (B n Hn). apply Hin. auto.
+Qed.
+
+(* ---- iou_compute ---- *)
+Lemma has_edge_in_all_edges st u v : has_edge st u v = true -> In (u, v) (all_edges st).
+Proof.
+  unfold has_edge, adj, getd, all_edges. destruct (lookup u (succs (g st))) as [d|] eqn:E; [|discriminate].
+  intros H. apply haskey_keys in H. apply lookup_In in E. apply in_flat_map. exists (u, d). split; [exact E|].
+  cbn [fst snd]. apply in_map_iff. exists v. auto.
+Qed.
+
+Theorem iou_compute_spec st sg ks : seg st = Some sg -> In KIou ks -> iou_act (ft st) = true ->
+  let s' := iou_compute st ks in
+  seg s' = Some sg /\ ft s' = ft st /\ nodes (g s') = nodes (g st) /\
+  (forall a b, has_edge s' a b = has_edge st a b) /\
+  forall u v, edge st u v -> 0 <= time_of st u < Z.of_nat (length sg) - 1 ->
+    lookup KIou (edge_attrs s' u v) = Some (iou_of st sg u v).
+Proof.
+  intros Hs Hk Ha. cbv zeta.
+  set (es := filter (fun e => (0 <=? time_of st (fst e)) && (time_of st (fst e) <? Z.of_nat (length sg) - 1)) (all_edges st)).
+  assert (E : iou_compute st ks = iou_update_edges st es).
+  { unfold iou_compute, iou_update_edges. rewrite Hs, Ha. apply memz_In in Hk. rewrite Hk. reflexivity. }
+  rewrite E. split; [now rewrite iou_update_seg|]. split; [apply iou_update_ft|]. split; [apply iou_update_nodes|].
+  destruct (iou_update_spec st sg es Hs Ha) as (H1 & H2 & _). split; [exact H1|].
+  intros u v He Ht. apply H2; [|exact He]. unfold es. apply filter_In. split; [now apply has_edge_in_all_edges|].
+  cbn [fst]. apply andb_true_iff. split; [apply Z.leb_le|apply Z.ltb_lt]; lia.
+Qed.
+
+Lemma iou_compute_frame st ks : let s' := iou_compute st ks in
+  seg s' = seg st /\ ft s' = ft st /\ nodes (g s') = nodes (g st) /\ (forall a b, has_edge s' a b = has_edge st a b).
+Proof.
+  cbv zeta. unfold iou_compute. destruct (seg st) as [sg|] eqn:Hs; [|rewrite Hs; auto].
+  destruct (memz KIou ks && iou_act (ft st)) eqn:B; [|rewrite Hs; auto].
+  apply andb_true_iff in B. destruct B as [B1 B2].
+  set (es := filter _ (all_edges st)).
+  assert (E : fold_left (fun s e => set_edge_attr s (fst e) (snd e) KIou (iou_of s sg (fst e) (snd e))) es st = iou_update_edges st es).
+  { unfold iou_update_edges. now rewrite Hs, B2. }
+  rewrite E. split; [now rewrite iou_update_seg|]. split; [apply iou_update_ft|]. split; [apply iou_update_nodes|].
+  apply (iou_update_spec st sg es Hs B2).
+Qed.
+
+(* ---- trk_compute writes the two id attributes and the lookups, nothing else ---- *)
+Lemma trk_only_fold key (Hk : key = KTrack \/ key = KLin) v : forall c st,
+  trk_only st (fold_left (fun s n => set_node_attr s n key v) c st).
+Proof.
+  induction c as [|n r IH]; intros st; cbn [fold_left]; [apply trk_only_refl|].
+  eapply trk_only_trans; [|apply IH]. apply sna_trk_only. exact Hk.
+Qed.
+Lemma assign_ids_trk_only key (Hk : key = KTrack \/ key = KLin) : forall comps i st book,
+  trk_only st (fst (fst (assign_ids key comps i st book))).
+Proof.
+  induction comps as [|c r IH]; intros i st book; cbn [assign_ids]; [apply trk_only_refl|].
+  eapply trk_only_trans; [apply (trk_only_fold key Hk)|apply IH].
+Qed.
+Lemma trk_only_upd_bk st b : trk_only st (upd_bk st b).
+Proof. split; [repeat split|apply nodes_keep_eq; reflexivity]. Qed.
+
+Lemma trk_compute_trk_only st ks ctrk clin : trk_only st (trk_compute st ks ctrk clin).
+Proof.
+  unfold trk_compute.
+  set (s1 := if memz KTrack ks && trk_act (ft st) then _ else st).
+  assert (H1 : trk_only st s1).
+  { unfold s1. destruct (memz KTrack ks && trk_act (ft st)); [|apply trk_only_refl].
+    pose proof (assign_ids_trk_only KTrack (or_introl eq_refl) ctrk 1 st []) as H.
+    destruct (assign_ids KTrack ctrk 1 st []) as [[s book] mx]. cbn [fst] in H.
+    eapply trk_only_trans; [exact H|apply trk_only_upd_bk]. }
+  destruct (memz KLin ks && lin_act (ft s1)); [|exact H1].
+  pose proof (assign_ids_trk_only KLin (or_intror eq_refl) clin 1 s1 []) as H.
+  destruct (assign_ids KLin clin 1 s1 []) as [[s book] mx]. cbn [fst] in H.
+  eapply trk_only_trans; [exact H1|]. eapply trk_only_trans; [exact H|apply trk_only_upd_bk].
+Qed.
+
+(* ---- enable_features with recomputation, unfolded into its three stages ---- *)
+Lemma enable_true_unfold st ks ctrk clin st' : enable_features st ks true ctrk clin = Ok tt st' ->
+  let s0 := upd_ft st (register (set_flags (ft st) ks true) ks) in
+  st' = trk_compute (iou_compute (rp_compute s0 ks) ks) ks ctrk clin.
+Proof. unfold enable_features. destruct (negb _); [discriminate|]. intros H; now injection H as <-. Qed.
+
+Lemma enabled_rp_active st ks k : In k ks -> In k (rp_all (ft st)) ->
+  In k (rp_act (register (set_flags (ft st) ks true) ks)).
+Proof.
+  intros H1 H2. cbn [register rp_act]. apply set_flags_rp_act. apply memz_In in H1. rewrite H1. auto.
+Qed.
+
+Section EnableFresh.
+Variables (st : state) (sg : list (list Z)) (ks : list Z) (ctrk clin : list (list Z)) (st' : state).
+Hypothesis Hcfg : cfg_keys st.
+Hypothesis Hseg : seg st = Some sg.
+Hypothesis HW : W_seg st.
+Hypothesis Hen : enable_features st ks true ctrk clin = Ok tt st'.
+
+Let f' := register (set_flags (ft st) ks true) ks.
+Let s0 := upd_ft st f'.
+Let s1 := rp_compute s0 ks.
+Let s2 := iou_compute s1 ks.
+
+Lemma ef_st' : st' = trk_compute s2 ks ctrk clin.
+Proof. exact (enable_true_unfold _ _ _ _ _ Hen). Qed.
+
+Lemma ef_rp_act_all k : In k (rp_act f') -> In k (rp_all (ft st)).
+Proof. unfold f'. cbn [register rp_act]. rewrite set_flags_rp_act. tauto. Qed.
+
+Lemma ef_stage1 : seg s1 = Some sg /\ ft s1 = f' /\ succs (g s1) = succs (g st) /\
+  nodes_keep (fun k => In k ks /\ In k (rp_act f')) st s1 /\
+  forall n k, is_node st n -> In k ks -> In k (rp_act f') -> attr s1 n k = Some (VRp (mask_of sg (time_of st n) n)).
+Proof. exact (rp_compute_spec s0 sg ks Hseg HW). Qed.
+
+Lemma ef_not_rp k : k = KTime \/ k = KTrack \/ k = KLin \/ k = KIou -> ~ (In k ks /\ In k (rp_act f')).
+Proof.
+  intros Hk [_ H]. apply ef_rp_act_all in H. destruct (cfg_rp_not_special st k Hcfg H) as (A & B & C & D).
+  destruct Hk as [E|[E|[E|E]]]; congruence.
+Qed.
+
+Lemma ef_frame : seg st' = Some sg /\ ft st' = f' /\ succs (g st') = succs (g s2) /\
+  (forall n, is_node st' n <-> is_node st n) /\ (forall n, time_of st' n = time_of st n) /\
+  (forall n k, k <> KTrack -> k <> KLin -> attr st' n k = attr s1 n k) /\
+  (forall a b, has_edge st' a b = has_edge st a b).
+Proof.
+  destruct ef_stage1 as (A1 & A2 & A3 & A4 & _).
+  destruct (iou_compute_frame s1 ks) as (B1 & B2 & B3 & B4). fold s2 in B1, B2, B3, B4.
+  destruct (trk_compute_trk_only s2 ks ctrk clin) as ((C1 & C2 & C3) & C4). rewrite <- ef_st' in C1, C2, C3, C4.
+  split; [congruence|]. split; [congruence|]. split; [exact C3|].
+  assert (T1 : forall n, time_of s1 n = time_of st n).
+  { intros n. apply (nodes_keep_time _ _ _ n (ef_not_rp KTime (or_introl eq_refl)) A4). }
+  assert (T2 : forall n, time_of s2 n = time_of s1 n) by (intros n; unfold time_of, zattr, attr, node_attrs; now rewrite B3).
+  split; [|split; [|split]].
+  - intros n. rewrite (nodes_keep_is_node _ _ _ n C4). unfold is_node, node_ids. rewrite B3.
+    apply (nodes_keep_is_node _ _ _ n A4).
+  - intros n. rewrite (nodes_keep_time _ _ _ n KTime_not_trk C4). now rewrite T2, T1.
+  - intros n k H1 H2. destruct C4 as [_ C4]. rewrite C4 by tauto. unfold attr, node_attrs. now rewrite B3.
+  - intros a b. rewrite (has_edge_succs st' s2 a b C3), B4. now apply has_edge_succs.
+Qed.
+
+Theorem enable_fresh_rp_thm :
+  seg st' = Some sg /\ (forall n, is_node st' n <-> is_node st n) /\ (forall n, time_of st' n = time_of st n) /\
+  forall n k, is_node st' n -> In k ks -> In k (rp_all (ft st)) ->
+    In k (rp_act (ft st')) /\ attr st' n k = Some (VRp (mask_of sg (time_of st' n) n)).
+Proof.
+  destruct ef_frame as (F1 & F2 & _ & F4 & F5 & F6 & _). destruct ef_stage1 as (_ & _ & _ & _ & A5).
+  split; [exact F1|]. split; [exact F4|]. split; [exact F5|]. intros n k Hn H1 H2.
+  pose proof (enabled_rp_active st ks k H1 H2) as Hact. fold f' in Hact. rewrite F2. split; [exact Hact|].
+  destruct (cfg_rp_not_special st k Hcfg H2) as (_ & B & C & _).
+  rewrite F6 by assumption. rewrite F5. apply A5; [now apply F4|exact H1|exact Hact].
+Qed.
+
+(* the whole node half of W_fresh is re-established / kept *)
+Theorem enable_rp_fresh_thm : rp_fresh st -> rp_fresh st'.
+Proof.
+  intros Hf. destruct ef_frame as (F1 & F2 & _ & F4 & F5 & F6 & _). destruct ef_stage1 as (_ & _ & _ & A4 & A5).
+  unfold rp_fresh in *. rewrite F1. rewrite Hseg in Hf. intros n k Hn Hk. rewrite F2 in Hk.
+  pose proof (ef_rp_act_all k Hk) as Hall. destruct (cfg_rp_not_special st k Hcfg Hall) as (_ & B & C & _).
+  rewrite F6 by assumption. rewrite F5. apply F4 in Hn.
+  destruct (in_dec Z.eq_dec k ks) as [Hi|Hni].
+  - now apply A5.
+  - destruct A4 as [_ A4]. rewrite A4 by tauto. change (attr s0 n k) with (attr st n k). apply Hf; [exact Hn|].
+    unfold f' in Hk. cbn [register rp_act] in Hk. apply set_flags_rp_act in Hk. apply memz_false in Hni. rewrite Hni in Hk. tauto.
+Qed.
+
+Theorem enable_fresh_iou_thm : In KIou ks ->
+  iou_act (ft st') = true /\ (forall u v, edge st' u v <-> edge st u v) /\
+  forall u v, edge st' u v -> 0 <= time_of st' u < Z.of_nat (length sg) - 1 ->
+    lookup KIou (edge_attrs st' u v) = Some (iou_of st' sg u v).
+Proof.
+  intros Hk. destruct ef_frame as (F1 & F2 & F3 & F4 & F5 & F6 & F7). destruct ef_stage1 as (A1 & A2 & A3 & A4 & _).
+  pose proof (enable_ok_avail _ _ _ _ _ _ Hen KIou Hk) as Hav.
+  assert (Hia : iou_avail (ft st) = true).
+  { destruct (available_cases st KIou Hcfg Hav) as [(_ & A & _)|[(_ & A & _)|[(A & _)|(A & _)]]]; try (now elim A); try discriminate A; exact A. }
+  assert (Hact : iou_act f' = true).
+  { unfold f'. cbn [register iou_act set_flags]. apply memz_In in Hk. now rewrite Hk, Hia. }
+  split; [now rewrite F2|]. split; [intros u v; unfold edge; now rewrite F7|].
+  intros u v He Ht. unfold edge in He. rewrite F7 in He. rewrite !F5 in Ht.
+  assert (Hact1 : iou_act (ft s1) = true) by now rewrite A2.
+  destruct (iou_compute_spec s1 sg ks A1 Hk Hact1) as (_ & _ & _ & _ & B5). fold s2 in B5.
+  assert (T1 : forall n, time_of s1 n = time_of st n).
+  { intros n. apply (nodes_keep_time _ _ _ n (ef_not_rp KTime (or_introl eq_refl)) A4). }
+  rewrite (edge_attrs_succs st' s2 u v F3). rewrite B5.
+  - f_equal. apply iou_of_ext; rewrite ?T1, ?F5; reflexivity.
+  - unfold edge. now rewrite (has_edge_succs s1 st u v A3).
+  - now rewrite T1.
+Qed.
+
+(* with a forest over the array every edge meets the range condition of the bulk computation *)
+Theorem enable_iou_fresh_thm : In KIou ks -> W_dict st -> W_forest st -> iou_fresh st'.
+Proof.
+  intros Hk Hd Hfo. destruct (enable_fresh_iou_thm Hk) as (_ & E2 & E3).
+  destruct ef_frame as (F1 & _ & _ & _ & F5 & _).
+  unfold iou_fresh. rewrite F1. intros _ u v He. apply E3; [exact He|]. rewrite F5.
+  apply E2 in He. destruct (wd_edge_nodes st Hd u v He) as [Hu Hv].
+  destruct (proj1 (W_seg_iff _ _ Hseg) HW) as (W1 & _).
+  destruct (W1 u Hu) as [Fu _]. destruct (W1 v Hv) as [Fv _].
+  apply frame_ok_range in Fu. apply frame_ok_range in Fv. pose proof (wf_time st Hfo u v He). lia.
+Qed.
+End EnableFresh.
+
+(* ---- track / lineage ids from the components the oracle returned ---- *)
+Lemma has_node_sna st n k v m : has_node (set_node_attr st n k v) m = has_node st m.
+Proof.
+  destruct (has_node st m) eqn:E.
+  - apply is_node_haskey. unfold is_node. rewrite sna_node_ids. now apply is_node_haskey.
+  - destruct (has_node (set_node_attr st n k v) m) eqn:E'; [|reflexivity].
+    apply is_node_haskey in E'. unfold is_node in E'. rewrite sna_node_ids in E'. apply is_node_haskey in E'. congruence.
+Qed.
+
+Lemma fold_set_other key v n k : forall c st, (k <> key \/ ~ In n c) ->
+  attr (fold_left (fun s m => set_node_attr s m key v) c st) n k = attr st n k.
+Proof.
+  induction c as [|m r IH]; intros st H; cbn [fold_left]; [reflexivity|].
+  rewrite IH by (destruct H as [H|H]; [now left|right; intros H'; apply H; now right]).
+  rewrite sna_attr. destruct (Z.eqb_spec n m) as [->|Hn]; [|reflexivity].
+  destruct (Z.eqb_spec k key) as [->|Hk]; [|reflexivity].
+  destruct H as [H|H]; [congruence|]. exfalso. apply H. now left.
+Qed.
+
+Lemma fold_set_keep key v n : forall c st, attr st n key = Some v ->
+  attr (fold_left (fun s m => set_node_attr s m key v) c st) n key = Some v.
+Proof.
+  induction c as [|m r IH]; intros st H; cbn [fold_left]; [exact H|]. apply IH. rewrite sna_attr.
+  destruct ((n =? m) && (key =? key) && has_node st m); [reflexivity|exact H].
+Qed.
+
+Lemma fold_set_in key v n : forall c st, has_node st n = true -> In n c ->
+  attr (fold_left (fun s m => set_node_attr s m key v) c st) n key = Some v.
+Proof.
+  induction c as [|m r IH]; intros st Hn Hin; [destruct Hin|]. cbn [fold_left]. destruct Hin as [->|Hin].
+  - apply fold_set_keep. rewrite sna_attr, !Z.eqb_refl, Hn. reflexivity.
+  - apply IH; [now rewrite has_node_sna|exact Hin].
+Qed.
+
+Lemma fold_set_has_node key v m : forall c st,
+  has_node (fold_left (fun s n => set_node_attr s n key v) c st) m = has_node st m.
+Proof. induction c as [|n r IH]; intros st; cbn [fold_left]; [reflexivity|]. now rewrite IH, has_node_sna. Qed.
+
+Lemma assign_ids_other key n k : forall comps i st book, (k <> key \/ forall c, In c comps -> ~ In n c) ->
+  attr (fst (fst (assign_ids key comps i st book))) n k = attr st n k.
+Proof.
+  induction comps as [|c r IH]; intros i st book H; cbn [assign_ids]; [reflexivity|].
+  rewrite IH by (destruct H as [H|H]; [now left|right; intros d Hd; apply H; now right]).
+  apply fold_set_other. destruct H as [H|H]; [now left|right; apply H; now left].
+Qed.
+
+Definition comps_disjoint (comps : list (list Z)) : Prop :=
+  forall i j c d n, nth_error comps i = Some c -> nth_error comps j = Some d -> In n c -> In n d -> i = j.
+
+Lemma comps_disjoint_tail c r : comps_disjoint (c :: r) -> comps_disjoint r /\ forall n d, In n c -> In d r -> ~ In n d.
+Proof.
+  intros H. split.
+  - intros i j a b n Ha Hb H1 H2. assert (E : S i = S j) by (eapply (H (S i) (S j)); eauto). now injection E.
+  - intros n d Hn Hd Hnd. apply In_nth_error in Hd. destruct Hd as [j Hj].
+    assert (E : O = S j) by (eapply (H O (S j)); [reflexivity|exact Hj|exact Hn|exact Hnd]). discriminate.
+Qed.
+
+Lemma assign_ids_spec key : forall comps i st book,
+  comps_disjoint comps ->
+  let r := assign_ids key comps i st book in
+  snd r = i + Z.of_nat (length comps) - 1 /\
+  (forall m, has_node (fst (fst r)) m = has_node st m) /\
+  (forall j c n, nth_error comps j = Some c -> In n c -> has_node st n = true ->
+       attr (fst (fst r)) n key = Some (VZ (i + Z.of_nat j))) /\
+  (forall x, x < i -> lookup x (snd (fst r)) = lookup x book) /\
+  (forall j c, nth_error comps j = Some c -> lookup (i + Z.of_nat j) (snd (fst r)) = Some c) /\
+  ((forall x, In x (keys book) -> x < i) ->
+     keys (snd (fst r)) = keys book ++ map (fun j => i + Z.of_nat j) (seq 0 (length comps))).
+Proof.
+  induction comps as [|c r IH]; intros i st book Hdj; cbv zeta; cbn [assign_ids].
+  - cbn [fst snd length]. split; [lia|]. split; [reflexivity|]. split; [intros [|j] ? ? H; discriminate H|].
+    split; [reflexivity|]. split; [intros [|j] ? H; discriminate H|]. intros _. cbn. now rewrite app_nil_r.
+  - destruct (comps_disjoint_tail c r Hdj) as [Hdr Hcr].
+    set (st1 := fold_left (fun s n => set_node_attr s n key (VZ i)) c st).
+    destruct (IH (i + 1) st1 (set i c book) Hdr) as (I1 & I2 & I3 & I4 & I5 & I6). cbv zeta in *.
+    split; [rewrite I1; cbn [length]; lia|].
+    split; [intros m; rewrite I2; apply fold_set_has_node|]. split; [|split; [|split]].
+    + intros [|j] d n Hj Hn Hh; cbn [nth_error] in Hj.
+      * injection Hj as <-. rewrite assign_ids_other by (right; intros d Hd; now apply Hcr).
+        replace (i + Z.of_nat 0) with i by lia. now apply fold_set_in.
+      * replace (i + Z.of_nat (S j)) with (i + 1 + Z.of_nat j) by lia. eapply I3; eauto.
+        unfold st1. now rewrite fold_set_has_node.
+    + intros x Hx. rewrite I4 by lia. apply lookup_set_neq. lia.
+    + intros [|j] d Hj; cbn [nth_error] in Hj.
+      * injection Hj as <-. replace (i + Z.of_nat 0) with i by lia. rewrite I4 by lia. apply lookup_set_eq.
+      * replace (i + Z.of_nat (S j)) with (i + 1 + Z.of_nat j) by lia. now apply I5.
+    + intros Hb. assert (Hni : ~ In i (keys book)) by (intros H; apply Hb in H; lia).
+      rewrite I6.
+      * rewrite keys_set_notin by exact Hni. rewrite <- app_assoc. f_equal. cbn [length seq map app].
+        f_equal; [lia|]. rewrite <- seq_shift, map_map. apply map_ext. intros j. lia.
+      * intros x Hx. apply in_keys_set in Hx. destruct Hx as [->|Hx]; [lia|]. apply Hb in Hx. lia.
+Qed.
+
+Lemma assign_ids_bk key : forall comps i st book, bk (fst (fst (assign_ids key comps i st book))) = bk st.
+Proof.
+  induction comps as [|c r IH]; intros i st book; cbn [assign_ids]; [reflexivity|]. rewrite IH.
+  generalize st as sb. induction c as [|x c' IHc]; intros sb; cbn [fold_left]; [reflexivity|]. rewrite IHc.
+  unfold set_node_attr. destruct (lookup x (nodes (g sb))); reflexivity.
+Qed.
+
+Section EnableIds.
+Variables (st : state) (ks : list Z) (ctrk clin : list (list Z)) (st' : state).
+Hypothesis Hen : enable_features st ks true ctrk clin = Ok tt st'.
+
+(* every available key other than the id keys keeps out of the way *)
+Lemma ei_stage2 : let s2 := iou_compute (rp_compute (upd_ft st (register (set_flags (ft st) ks true) ks)) ks) ks in
+  st' = trk_compute s2 ks ctrk clin /\ ft s2 = register (set_flags (ft st) ks true) ks /\
+  (forall m, has_node s2 m = has_node st m).
+Proof.
+  cbv zeta. split; [exact (enable_true_unfold _ _ _ _ _ Hen)|]. split; [now rewrite iou_compute_ft, rp_compute_ft|].
+  intros m. set (s0 := upd_ft st _). set (s1 := rp_compute s0 ks).
+  destruct (iou_compute_frame s1 ks) as (_ & _ & B3 & _).
+  transitivity (has_node s1 m); [unfold has_node; now rewrite B3|]. change (has_node st m) with (has_node s0 m).
+  assert (H : node_ids s1 = node_ids s0).
+  { unfold s1, rp_compute. destruct (seg s0) as [sg|]; [|reflexivity]. destruct (filter _ _) as [|k0 r]; [reflexivity|].
+    generalize (map Z.of_nat (seq 0 (length sg))) as l. intros l. generalize s0 as s.
+    induction l as [|t l' IH]; intros s; cbn [fold_left]; [reflexivity|]. rewrite IH.
+    unfold rp_compute_frame. generalize (labels_of (frame_of sg t)) as ll. intros ll. generalize s as sa.
+    induction ll as [|x rr IH2]; intros sa; cbn [fold_left]; [reflexivity|]. rewrite IH2.
+    destruct (has_node sa x); [|reflexivity]. apply (set_keys_node_ids sa x (k0 :: r)). }
+  destruct (has_node s0 m) eqn:E.
+  - apply is_node_haskey. unfold is_node. rewrite H. now apply is_node_haskey.
+  - destruct (has_node s1 m) eqn:E'; [|reflexivity]. apply is_node_haskey in E'. unfold is_node in E'. rewrite H in E'.
+    apply is_node_haskey in E'. congruence.
+Qed.
+
+Theorem enable_ids_trk_thm : In KTrack ks -> comps_disjoint ctrk ->
+  trk_act (ft st') = true /\
+  (forall j c n, nth_error ctrk j = Some c -> In n c -> is_node st n -> attr st' n KTrack = Some (VZ (1 + Z.of_nat j))) /\
+  (forall j c, nth_error ctrk j = Some c -> lookup (1 + Z.of_nat j) (trk_book (bk st')) = Some c) /\
+  keys (trk_book (bk st')) = map (fun j => 1 + Z.of_nat j) (seq 0 (length ctrk)) /\
+  max_trk (bk st') = Z.of_nat (length ctrk).
+Proof.
+  intros Hk Hdj. destruct ei_stage2 as (E & F & Hh). cbv zeta in *. set (s2 := iou_compute _ ks) in *.
+  assert (Ht : trk_act (ft s2) = true).
+  { rewrite F. cbn [register trk_act set_flags]. apply memz_In in Hk. now rewrite Hk. }
+  split; [rewrite E, trk_compute_ft; exact Ht|].
+  rewrite E. unfold trk_compute. apply memz_In in Hk. rewrite Hk, Ht. cbn [andb].
+  destruct (assign_ids_spec KTrack ctrk 1 s2 [] Hdj) as (A1 & A2 & A3 & _ & A5 & A6). cbv zeta in *.
+  destruct (assign_ids KTrack ctrk 1 s2 []) as [[s book] mx]. cbn [fst snd] in *.
+  set (s3 := upd_bk s _).
+  assert (Hfin : forall sf, (sf = s3 \/ exists b m, sf = upd_bk (fst (fst (assign_ids KLin clin 1 s3 []))) 
+                   {| trk_book := trk_book (bk (fst (fst (assign_ids KLin clin 1 s3 [])))); lin_book := b;
+                      max_trk := max_trk (bk (fst (fst (assign_ids KLin clin 1 s3 [])))); max_lin := m |}) ->
+     (forall n, attr sf n KTrack = attr s n KTrack) /\ trk_book (bk sf) = book /\ max_trk (bk sf) = mx).
+  { intros sf [->|(b & m & ->)]; [repeat split|].
+    pose proof (assign_ids_bk KLin clin 1 s3 []) as Hb.
+    split; [|cbn [bk upd_bk trk_book max_trk]; rewrite Hb; split; reflexivity].
+    intros n. change (attr (upd_bk ?a ?b) n KTrack) with (attr a n KTrack).
+    rewrite assign_ids_other by (left; discriminate). reflexivity. }
+  assert (Hsf : exists sf, (if memz KLin ks && lin_act (ft s3)
+      then let '(s4, book0, mx0) := assign_ids KLin clin 1 s3 [] in
+           upd_bk s4 {| trk_book := trk_book (bk s4); lin_book := book0; max_trk := max_trk (bk s4); max_lin := mx0 |}
+      else s3) = sf /\ (forall n, attr sf n KTrack = attr s n KTrack) /\ trk_book (bk sf) = book /\ max_trk (bk sf) = mx).
+  { destruct (memz KLin ks && lin_act (ft s3)).
+    - specialize (Hfin (upd_bk (fst (fst (assign_ids KLin clin 1 s3 [])))
+                   {| trk_book := trk_book (bk (fst (fst (assign_ids KLin clin 1 s3 [])))); lin_book := snd (fst (assign_ids KLin clin 1 s3 []));
+                      max_trk := max_trk (bk (fst (fst (assign_ids KLin clin 1 s3 [])))); max_lin := snd (assign_ids KLin clin 1 s3 []) |})).
+      destruct (assign_ids KLin clin 1 s3 []) as [[s4 b4] m4]. cbn [fst snd] in Hfin. eexists. split; [reflexivity|].
+      apply Hfin. right. eauto.
+    - exists s3. split; [reflexivity|]. apply Hfin. now left. }
+  destruct Hsf as (sf & -> & S1 & S2 & S3).
+  split; [|split; [|split]].
+  - intros j c n Hj Hn Hnode. rewrite S1. eapply A3; eauto. rewrite Hh. now apply is_node_haskey.
+  - intros j c Hj. rewrite S2. now apply A5.
+  - rewrite S2, A6; [reflexivity|intros x []].
+  - rewrite S3, A1. lia.
+Qed.
+
+Theorem enable_ids_lin_thm : In KLin ks -> comps_disjoint clin ->
+  lin_act (ft st') = true /\
+  (forall j c n, nth_error clin j = Some c -> In n c -> is_node st n -> attr st' n KLin = Some (VZ (1 + Z.of_nat j))) /\
+  (forall j c, nth_error clin j = Some c -> lookup (1 + Z.of_nat j) (lin_book (bk st')) = Some c) /\
+  keys (lin_book (bk st')) = map (fun j => 1 + Z.of_nat j) (seq 0 (length clin)) /\
+  max_lin (bk st') = Z.of_nat (length clin).
+Proof.
+  intros Hk Hdj. destruct ei_stage2 as (E & F & Hh). cbv zeta in *. set (s2 := iou_compute _ ks) in *.
+  assert (Hl : lin_act (ft s2) = true).
+  { rewrite F. cbn [register lin_act set_flags]. apply memz_In in Hk. now rewrite Hk. }
+  split; [rewrite E, trk_compute_ft; exact Hl|].
+  rewrite E. unfold trk_compute.
+  set (s3 := if memz KTrack ks && trk_act (ft s2) then _ else s2).
+  assert (H3 : ft s3 = ft s2 /\ forall m, has_node s3 m = has_node s2 m).
+  { unfold s3. destruct (memz KTrack ks && trk_act (ft s2)); [|auto].
+    pose proof (assign_ids_ft KTrack ctrk 1 s2 []) as H1.
+    pose proof (assign_ids_trk_only KTrack (or_introl eq_refl) ctrk 1 s2 []) as (_ & H2 & _).
+    destruct (assign_ids KTrack ctrk 1 s2 []) as [[s book] mx]. cbn [fst] in *. split; [exact H1|].
+    intros m. unfold has_node. cbn [g upd_bk]. destruct (haskey m (nodes (g s2))) eqn:E2.
+    - apply haskey_keys. unfold node_ids in H2. rewrite H2. now apply haskey_keys.
+    - destruct (haskey m (nodes (g s))) eqn:E3; [|reflexivity]. apply haskey_keys in E3. unfold node_ids in H2. rewrite H2 in E3.
+      apply haskey_keys in E3. congruence. }
+  destruct H3 as [F3 Hh3]. apply memz_In in Hk. rewrite Hk, F3, Hl. cbn [andb].
+  destruct (assign_ids_spec KLin clin 1 s3 [] Hdj) as (A1 & A2 & A3 & _ & A5 & A6). cbv zeta in *.
+  destruct (assign_ids KLin clin 1 s3 []) as [[s book] mx]. cbn [fst snd] in *.
+  split; [|split; [|split]].
+  - intros j c n Hj Hn Hnode. change (attr (upd_bk ?a ?b) n KLin) with (attr a n KLin). eapply A3; eauto.
+    rewrite Hh3, Hh. now apply is_node_haskey.
+  - intros j c Hj. cbn [bk upd_bk lin_book]. now apply A5.
+  - cbn [bk upd_bk lin_book]. rewrite A6; [reflexivity|intros x []].
+  - cbn [bk upd_bk max_lin]. rewrite A1. lia.
+Qed.
+End EnableIds.
+
+(* ================================================================== *)
+(* Summaries quoted by Props/C10.v                                     *)
+(* ================================================================== *)
+Definition nobody (n : Z) : Prop := False.
+Definition noedge (a b : Z) : Prop := False.
+
+Theorem frozen_basic_summary st k : cfg_keys st -> In k (rp_all (ft st)) -> ~ In k (rp_act (ft st)) ->
+  (forall n, frz k nobody st (rp_update st n)) /\
+  (forall n px added, frz k nobody st (rstate (do_upd_seg st n px added))) /\
+  (forall u v a, frz k nobody st (rstate (do_add_edge st u v a))) /\
+  (forall u v, frz k nobody st (rstate (do_del_edge st u v))) /\
+  (forall s T L, frz k nobody st (rstate (do_upd_track st s T L))) /\
+  (forall n new, frz k nobody st (rstate (do_upd_attrs st n new))) /\
+  (forall m a px, frz k (eq m) st (rstate (do_add_node st m a px))) /\
+  (forall m pxo, frz k (eq m) st (rstate (do_del_node st m pxo))) /\
+  (forall b, frz k (basic_nodes b) st (rstate (inv_basic st b))) /\
+  (forall a, frz k (action_nodes a) st (rstate (inv_action st a))).
+Proof.
+  intros C H1 H2. pose proof (disabled_rp_intro st k C H1 H2) as D.
+  split; [intros; now apply frozen_rp_update|]. split; [intros; now apply frozen_upd_seg|].
+  split; [intros; now apply frozen_add_edge|]. split; [intros; now apply frozen_del_edge|].
+  split; [intros; now apply frozen_upd_track|]. split; [intros; now apply frozen_upd_attrs|].
+  split; [intros; now apply frozen_add_node|]. split; [intros; now apply frozen_del_node|].
+  split; [intros; now apply frozen_inv_basic|]. intros; now apply frozen_inv_action.
+Qed.
+
+Theorem frozen_user_summary st k : cfg_keys st -> In k (rp_all (ft st)) -> ~ In k (rp_act (ft st)) ->
+  (forall u v top, frz k nobody st (rstate (user_delete_edge st u v top))) /\
+  (forall u v force top, frz k nobody st (rstate (user_add_edge st u v force top))) /\
+  (forall n pxo top, frz k (eq n) st (rstate (user_delete_node st n pxo top))) /\
+  (forall n a px force top, frz k (eq n) st (rstate (user_add_node st n a px force top))) /\
+  (forall a b, frz k nobody st (rstate (user_swap st a b))) /\
+  (forall n new, frz k nobody st (rstate (user_update_attrs st n new))).
+Proof.
+  intros C H1 H2. pose proof (disabled_rp_intro st k C H1 H2) as D.
+  split; [intros; now apply (frozen_ude' k nobody st st u v top (frozen_refl _ _ _))|].
+  split; [intros; now apply (frozen_uae' k nobody st st u v force top (frozen_refl _ _ _))|].
+  split; [intros; now apply (frozen_udn' k (eq n) st st n pxo top eq_refl (frozen_refl _ _ _))|].
+  split; [intros; now apply (frozen_uan' k (eq n) st st n a px force top eq_refl (frozen_refl _ _ _))|].
+  split; intros; [unfold user_swap|unfold user_update_attrs]; apply frozen_top_wrap'; auto.
+  - apply frozen_swap_core', frozen_refl.
+  - apply frozen_uua_core', frozen_refl.
+Qed.
+
+Theorem frozen_step_attr st o k n : cfg_keys st -> In k (rp_all (ft st)) -> ~ In k (rp_act (ft st)) ->
+  ~ op_nodes st o n ->
+  attr (fst (step st o)) n k = attr st n k /\ ~ In k (rp_act (ft (fst (step st o)))).
+Proof.
+  intros C H1 H2 Hn. destruct (frozen_step k st o (disabled_rp_intro st k C H1 H2)) as [F A].
+  split; [now apply A|now rewrite F].
+Qed.
+
+Theorem iou_frozen_summary st : iou_act (ft st) = false ->
+  (forall es, iou_update_edges st es = st) /\
+  (forall n px added, efrz noedge st (rstate (do_upd_seg st n px added))) /\
+  (forall u v a, efrz (fun x y => x = u /\ y = v) st (rstate (do_add_edge st u v a))) /\
+  (forall u v, efrz (fun x y => x = u /\ y = v) st (rstate (do_del_edge st u v))) /\
+  (forall s T L, efrz noedge st (rstate (do_upd_track st s T L))) /\
+  (forall n new, efrz noedge st (rstate (do_upd_attrs st n new))) /\
+  (forall m a px, efrz noedge st (rstate (do_add_node st m a px))) /\
+  (forall m pxo, efrz (fun x y => x = m \/ y = m) st (rstate (do_del_node st m pxo))).
+Proof.
+  intros H. split; [intros; now apply iou_disabled_no_update|]. split; [intros; now apply efrozen_upd_seg|].
+  split; [intros; now apply efrozen_add_edge|]. split; [intros; now apply efrozen_del_edge|].
+  split; [intros; now apply efrozen_upd_track|]. split; [intros; now apply efrozen_upd_attrs|].
+  split; [intros; now apply efrozen_add_node|]. intros; now apply efrozen_del_node.
 Qed.
